@@ -13,7 +13,7 @@ namespace HtmlVerif.Py
 open HtmlVerif
 
 /-- `xs.append(v)` as a statement: the new list -/
-def pyListAppend (xs v : PVal) : PyM PVal :=
+def pyListAppendA (xs v : PVal) : PyM PVal :=
   match xs with
   | .list l => pure (.list (l ++ [v]))
   | .obj _ _ => throw .unsupported
